@@ -653,6 +653,11 @@ func createConnHandler(
 				ctx = metadata.NewOutgoingContext(ctx, md)
 			}
 
+			// Ends the backend call when the request side fails, and in any
+			// case when this handler returns.
+			ctx, cancel := context.WithCancel(ctx)
+			defer cancel()
+
 			clientStream, err := cc.NewStream(ctx, sd, method)
 			if err != nil {
 				return err
@@ -683,6 +688,10 @@ func createConnHandler(
 						if err := clientStream.CloseSend(); err != nil {
 							inErr = err
 						}
+					} else if isStreamError(inErr) {
+						// The client's stream broke: the backend must not
+						// wait for the rest of it.
+						cancel()
 					}
 					wg.Done()
 				}()
